@@ -142,6 +142,7 @@ structure Market where
   active : Bool := false                -- Blotter.active
   analytics : List Analytics := []      -- SimulatedMiddleware.markets[market_id]
   hasAnalytics : Bool := false
+  removals : List (Nat × Rat × Option Rat) := []   -- SimulatedMiddleware._market_runner_removals[market_id]
   lineRangeResult : Option Rat := none  -- market.context["line_range_result"]
   updateCatalogue : Bool := true
   transactionId : Nat := 0
@@ -342,9 +343,11 @@ def orderUpdateStatus (w : World) (oid : Nat) (s : Status) : World :=
 
 def orderPlacing (w : World) (oid : Nat) : World := w.orderUpdateStatus oid .pending
 
-/-- `executable()`: status, then `update_data.clear()` -/
+/-- `executable()`: a completed order is final (only `update_data.clear()`); otherwise status,
+    then `update_data.clear()` -/
 def orderExecutable (w : World) (oid : Nat) : World :=
-  (w.orderUpdateStatus oid .executable).modifyOrder oid fun o => { o with ud := {} }
+  if (w.order! oid).complete then w.modifyOrder oid fun o => { o with ud := {} }
+  else (w.orderUpdateStatus oid .executable).modifyOrder oid fun o => { o with ud := {} }
 
 def orderExecutionComplete (w : World) (oid : Nat) : World :=
   (w.orderUpdateStatus oid .executionComplete).modifyOrder oid fun o =>
